@@ -135,6 +135,13 @@ def run(tier: str, rep: Report):
     def keyfn(evid, clauses):
         return f"{PID}/{'+'.join(sorted(c.split('.')[1] for c in clauses))}/{evid.split(':')[0]}/ver{df.ver_of(evid)}"
 
+    def corrupt(e):
+        if not e.get("insp", {}).get("ok") or not e["lib"].get("params") or e["lib"].get("exc"):
+            return None
+        e["lib"]["params"][0][1] = (e["lib"]["params"][0][1] + 1) % 5
+        return e
+
+    df.negative_control(rep, files, "Trace_Decode", corrupt, ("P04.params",))
     df.classify(rep, fails, ("P04.",), PID, keyfn)
     if rep.cov["recorded"]["uncompilable"] > 8 * 4:
         rep.machinery_error(f"{rep.cov['recorded']['uncompilable']} rendered sources did not compile")
